@@ -329,9 +329,13 @@ def inject(spec, text, contract, warnings):
         out.add('    requires', dict(base, kind='requires'))
         for l in contract.requires:
             out.add('        ' + l, dict(base, kind='requires'))
-    if contract.ensures:
+    ens = list(contract.ensures)
+    if os.environ.get('VERIF_VACUITY'):
+        # must-fail twin: with this clause added the function has to be REJECTED, else a requires/assumed contract is contradictory
+        ens.append(('vacuity', spec.tags, ['false,']))
+    if ens:
         out.add('    ensures', dict(base, kind='ensures'))
-        for name, tags, lines in contract.ensures:
+        for name, tags, lines in ens:
             meta = dict(fn=fnm, kind='ensures', name=name, tags=tags if tags is not None else spec.tags)
             for l in lines:
                 out.add('        ' + l, meta)
